@@ -105,8 +105,10 @@ func (Params).Size
 // proofs hold for colliding keys as well)
 spec keyHash(k bseq) uint64
 
+// verified against the assumed fnv model (/verif/trusted/fnv.spec): the hash depends on the key's
+// CONTENT only, so nil and empty keys hash alike
 func KeyHash
-    flags assumed
+    flags noframe
     ensures ret0 == keyHash(bseq(key))
 
 // the 8-byte big-endian encoding of a hash, as used for the key tree; decodeHash is its inverse
